@@ -9,7 +9,9 @@
    are part of the executable models and are tied to the code by the allocator correspondence run and by the
    simulation runs (hash-chain digests equal to the reference for every configuration and checkpoint interval). *)
 From Coq Require Import List Arith NArith.
-From RS Require Import Buddy.BuddyTree Buddy.Alloc Buddy.AllocProofs.
+From RS Require Import Buddy.BuddyTree Buddy.Alloc Buddy.AllocProofs TW.App TW.Worker TW.WorkerProofs.
+From Coq Require Import Sorted.
+Import ListNotations.
 
 Theorem C05_arena_restore_is_exact : forall B H (a a' : arena), length (a_cells a') = length (a_cells a) ->
   let r := arena_restore B H a' (arena_take a) in
@@ -24,5 +26,31 @@ Theorem C05_restore_uses_newest_checkpoint_not_after : forall B H AHDR s ref s' 
     m_logs s' = firstn (S i) (m_logs s).
 Proof. exact restore_picks_newest. Qed.
 
+(* process.c level, on the executable worker model (TW/Worker.v: process_msg, rollback = anti-messages + checkpoint restore +
+   silent re-execution, periodic checkpoints, fossil collection with re-basing, the message queue; tied to the C code by the
+   op-by-op correspondence run of this check).  In EVERY state the worker reaches, by any script of message deliveries, held-back
+   messages handed back late (stragglers), cancellations and GVT announcements, and for any program and checkpoint interval:
+   the memory of every LP is exactly the result of executing, in order and from its oldest retained checkpoint, the processed
+   messages of its retained history; and every retained checkpoint is the result of executing the history up to its reference. *)
+Theorem C05_every_reachable_lp_state_is_the_replay_of_its_history : forall (p : prog) (ck : nat) (ops : list wop),
+  Forall (lp_ok p) (k_lps (fold_left (wstep p ck) ops (w_init p))).
+(* where (TW/WorkerProofs.v)
+     lp_ok p x := exists newer r0 s0,
+        x_logs x = newer ++ [(r0, s0)]                                   -- the checkpoint log, newest first; the oldest is the base
+     /\ StronglySorted (fun a b => fst b < fst a) (x_logs x)            -- references strictly increasing with age
+     /\ (forall r s, In (r, s) (x_logs x) ->
+            r <= length (x_hist x) /\ s = replay p s0 (sub (x_hist x) r0 r))  -- every checkpoint = replay of the history up to it
+     /\ x_st x = replay p s0 (skipn r0 (x_hist x))                        -- the LP memory = replay of the whole retained history *)
+Proof. exact worker_states_exact. Qed.
+
+(* one rollback, spelled out: the restored-and-coasted state is the replay of the kept history from the chosen checkpoint *)
+Theorem C05_rollback_state : forall (p : prog) (x : lpx) past ref snap older,
+  lp_ok p x -> drop_newer (x_logs x) past = (ref, snap) :: older ->
+  lp_ok p (mkLpx (firstn past (x_hist x)) (x_bound x) (replay p snap (sub (firstn past (x_hist x)) ref past))
+                 ((ref, snap) :: older) (x_rem x) (x_epoch x)).
+Proof. exact rollback_lp_ok. Qed.
+
 Print Assumptions C05_arena_restore_is_exact.
+Print Assumptions C05_every_reachable_lp_state_is_the_replay_of_its_history.
+Print Assumptions C05_rollback_state.
 Print Assumptions C05_restore_uses_newest_checkpoint_not_after.
